@@ -4,9 +4,10 @@ import Femio.Model.ResFile
 
 ```
 sec   := list(var) list(row)        var := str nat        row := nat list(str)      -- values are numeral strings
-text  := list(str)                  -- one escaped token per line
+text  := str                        -- the characters of the whole file, every line terminated by a newline
 c02.render <layout 0|1> <trail 0|1> <comment:str> <time:str> <nElemHeader> <wcN> <wvN> <wcE> <wvE> <sec> <0 | 1 sec>
-        -> ok <text>
+        -> ok <hyp 0|1> <text>      -- text = `fileText trail (renderFile …)`; hyp = the Boolean hypotheses
+                                    -- `fileOKB f && hdrOKB L comment time` of `C02_parse_render_chars` on this input
 c02.parse <nNodes> <nElems> <text>  -> ok 0 | ok 1 <sec> <0 | 1 sec>
 c02.readdir <wrapSingleton 0|1> <timeSeries 0|1> <nNodes> <nElems> <typeIds: list(nat list(nat))> <files: list(str text)>
         -> ok 0                                             (the real code raises)
@@ -19,13 +20,12 @@ open Femio.Proto Res Femio.Text
 def varP : P Var := do let n ← str; let w ← nat; pure ⟨n, w⟩
 def rowP : P (Nat × List Str) := do let i ← nat; let v ← listOf str; pure (i, v)
 def secP : P (Sec Str) := do let vs ← listOf varP; let rs ← listOf rowP; pure ⟨vs, rs⟩
-def textP : P (List Str) := listOf str
+def textP : P Str := str
 
 def showStr (s : Str) : String := escape s
 def showSec (s : Sec Str) : String :=
   showList (fun (x : Var) => s!"{showStr x.name} {x.width}") s.vars ++ " " ++
   showList (fun (r : Nat × List Str) => s!"{r.1} {showList showStr r.2}") s.rows
-def showText (t : List Str) : String := showList showStr t
 
 def showSAttr (a : SeriesAttr Str) : String :=
   s!"{showStr a.name} {showList toString a.ids} " ++
@@ -36,9 +36,6 @@ def showDir (d : DirReading Str) : String :=
 
 def toSeries (a : Attr Str) : SeriesAttr Str := ⟨a.name, a.ids, [a.data]⟩
 
-/-- E-notation test of the abstract value tokens = the same regular expression on their text -/
-def eNotStr : Str → Bool := matchE
-
 def handle : List String → Option String
   | "c02.render" :: rest => do
     let (lay, trail, comment, time, nE, wcN, wvN, wcE, wvE, sn, se) ← run (do
@@ -46,12 +43,13 @@ def handle : List String → Option String
       let wcN ← nat; let wvN ← nat; let wcE ← nat; let wvE ← nat
       let sn ← secP; let se ← optOf secP
       pure (lay, trail, comment, time, nE, wcN, wvN, wcE, wvE, sn, se)) rest
-    let ls := renderFile (if lay then .v2 else .old) comment [.v time] nE wcN wvN wcE wvE ⟨sn, se⟩
-    -- the solver ends numeric lines with a blank; name lines have none
-    some ("ok " ++ showText (ls.map fun l => lineText (trail && !isName l) l))
+    let L : Layout := if lay then .v2 else .old
+    let ls := renderFile L comment [.v time] nE wcN wvN wcE wvE ⟨sn, se⟩
+    -- the solver ends numeric lines with a blank; name lines have none (`printLine`)
+    some (s!"ok {showBool (fileOKB ⟨sn, se⟩ && hdrOKB L comment [.v time])} {showStr (fileText trail ls)}")
   | "c02.parse" :: rest => do
     let (nN, nE, text) ← run (do let a ← nat; let b ← nat; let t ← textP; pure (a, b, t)) rest
-    match readRes eNotStr (text.map lexLine) nN nE with
+    match readResText text nN nE with
     | none => some "ok 0"
     | some f => some ("ok 1 " ++ showSec f.nodal ++ " " ++ showOpt showSec f.elemental)
   | "c02.readdir" :: rest => do
@@ -60,7 +58,7 @@ def handle : List String → Option String
       let tys ← listOf (do let t ← nat; let ids ← listOf nat; pure (t, ids))
       let files ← listOf (do let n ← str; let t ← textP; pure (n, t))
       pure (wrap, ts, a, b, tys, files)) rest
-    match files.mapM fun f => (stepOf f.1).map fun s => (s, f.2.map lexLine) with
+    match files.mapM fun f => (stepOf f.1).map fun s => (s, lexFile f.2) with
     | none => some "ok 0"
     | some fs =>
       if ts then
